@@ -60,7 +60,10 @@ func (s scen) config() *stack.Config {
 			if c := x.Register(e.events, ""); c.Status != 200 {
 				x.Stall()
 			}
-			for {
+			for it := 0; ; it++ {
+				if it > 40 {
+					x.Stall() // an emulator that answers every next at once must not make the script spin for ever
+				}
 				ev := x.ExtNext()
 				if ev.Status != 200 {
 					x.Stall()
@@ -80,7 +83,7 @@ func (s scen) config() *stack.Config {
 			if c := x.Register(s.internal, ""); c.Status == 200 {
 				sched.Go(x.Name, func() {
 					defer stack.QuietExit()
-					for {
+					for it := 0; it <= 40; it++ {
 						if c := x.ExtNext(); c.Status != 200 {
 							return
 						}
